@@ -20,7 +20,7 @@ def scratch_dir(prefix='gambit-verif-'):
 def check_import():
 	import gambit
 	here = os.path.realpath(os.path.dirname(gambit.__file__))
-	want = os.path.realpath(os.path.join(REPO, 'src', 'gambit'))
+	want = os.path.realpath(os.path.join(os.environ.get('VERIF_IMPL_ROOT') or os.path.join(REPO, 'src'), 'gambit'))
 	if here != want:
 		raise RuntimeError(f'gambit imported from {here}, expected {want}')
 	return gambit
